@@ -224,7 +224,10 @@ theorem version_bytes_not_decisive (f : List Nat) (i b : Nat) (hi : 4 ≤ i) (hi
 /-- Characterisation of the accepted headers: exactly the buffers of at least 112 bytes with
     ENDIAN_CONSTANT, the magic, the Adler-32 of everything after the checksum field, header size
     0x70 and at most 65535 type and proto ids.  (The version digits, `file_size`, the SHA-1
-    signature and `data_size` are not decisive in androguard.) -/
+    signature and `data_size` are not decisive in androguard.)
+    Offsets, ENDIAN_CONSTANT, header size and the Adler-32 are the format document's; the magic
+    predicate `Spec.Header.MagicOK` is what the CODE accepts, wider than the document (`dey\n`
+    and any three version bytes are admitted) — see its doc comment. -/
 theorem accepted_iff (f : List Nat) :
     headerCheck f = .ok () ↔
       (112 ≤ f.length
@@ -255,9 +258,11 @@ theorem accepted_iff (f : List Nat) :
     · exact (typeIds_ok_iff f).2 h6
     · exact (protoIds_ok_iff f).2 h7
 
-/-- Rejection happens before any structure is parsed: when the header is rejected, the result
-    of `DEX._load` is that header error whatever the rest of the parser would do (in
-    particular a parser that raises a different error on the same bytes is never reached). -/
+/-- DEFINITIONAL: this restates the model's definition of `load` (`simp [load]`): in the MODEL the
+    header error is returned whatever the rest of the parser would do.  It carries no weight of its
+    own for "before any structure is parsed": that the REAL `DEX._load` constructs nothing before
+    the header error rests on the tie — the correspondence of `DEX(...)` with the model and the
+    oracle's MapList spy + traceback check on every searched input — not on a theorem. -/
 theorem rejected_before_parse {α : Type} (parse parse' : List Nat → Except Err α) (f : List Nat)
     (e : Err) (h : headerCheck f = .error e) :
     load parse f = .error e ∧ load parse f = load parse' f := by
